@@ -52,9 +52,9 @@ Definition oracle_ok (c : case) : bool :=
   let '(_, _, ops, obs, aux) := c in
   let rc := received ops obs in
   let fs := frames_of ops in
-  oracle_no_panic obs && oracle_consumers ops obs &&
-  (negb (all_ok obs) ||
-   forallb (fun '(q, a) =>
+  (* the histories are protocol-valid: no frame may be answered with an error *)
+  oracle_no_panic obs && oracle_consumers ops obs && all_ok obs &&
+  (forallb (fun '(q, a) =>
               match a with
               | AConsumer ch tag =>
                   let '(_, term) := life ch tag false fs in
